@@ -1197,7 +1197,7 @@ impl<'de> de::Deserializer<'de> for &mut Deserializer<'de> {
                         self.wire_type
                     )));
                 }
-                let value = visitor.visit_seq(Compound::new(
+                let mut fields = Compound::new(
                     self,
                     Style::Struct {
                         expect,
@@ -1205,7 +1205,11 @@ impl<'de> de::Deserializer<'de> for &mut Deserializer<'de> {
                         expect_idx: 0,
                         wire_idx: 0,
                     },
-                ))?;
+                );
+                let value = visitor.visit_seq(&mut fields)?;
+                // A tuple visitor asks for exactly as many components as the Rust type has. The remaining
+                // components of a wider wire tuple still have to be read, or the next value starts in the middle of them.
+                while de::SeqAccess::next_element::<de::IgnoredAny>(&mut fields)?.is_some() {}
                 Ok(value)
             }
             _ => check!(false),
